@@ -26,6 +26,59 @@ def char_switch_groups(fn):
     return out
 
 
+PUNCT = [c for c in range(33, 127) if not chr(c).isalnum()]
+
+
+def macro_alphabets(mac, pf, pid):
+    """Abstract evaluation of the macro's token parser for each ASCII punctuation character c, with the token
+    stream symbolic: `init` = characters for which a Punct token with as_char() == c can become (the start of) a
+    symbol (parse_identifier is reached, or Ok(Value::Symbol) is returned); `subs` = characters parse_identifier
+    appends to the identifier.  Helper functions of the macro's parser are looked through."""
+    RES, OPT = "std::result::Result", "std::option::Option"
+    leaf = {"parser::Parser::token", "parser::Parser::peek", "parser::Parser::eat_token", "parser::Parser::next_token",
+            "parser::Parser::parse_octothorpe", "parser::Parser::parse_identifier", "parser::parse_list",
+            "parser::parse_vector", "parser::string_literal", "parser::Parser::parse"}
+    inline = lambda a, b: b.crate == mac.name and b.file.endswith("parser.rs") and b.path not in leaf and b.kind != "closure"
+    init, subs = set(), set()
+    for c in PUNCT:
+        def hook(S, fn, bb, t, args, path, c=c):
+            p = t["callee"].get("path", "")
+            if p == "parser::Parser::token":
+                return ("value", Adt(RES, 0, [UNK]))
+            if p == "proc_macro2::Punct::as_char":
+                return ("value", c)
+            if p in leaf:
+                return ("value", UNK)
+            return None
+
+        S = sim.Sim([mac], hooks={"call": hook}, inline=inline, max_paths=6000, max_depth=5)
+        for pth in S.run(pf):
+            if not pth.calls("proc_macro2::Punct::as_char"):
+                continue
+            if pth.calls("parser::Parser::parse_identifier"):
+                init.add(c)
+            elif pth.end == "return" and isinstance(pth.ret, Adt) and pth.ret.variant == 0 and pth.ret.fields \
+                    and isinstance(pth.ret.fields[0], Adt) and pth.ret.fields[0].vname == "Symbol":
+                init.add(c)
+
+        def hook2(S, fn, bb, t, args, path, c=c):
+            p = t["callee"].get("path", "")
+            if p == "parser::Parser::peek":
+                k = sum(1 for e in path.events if e[0] == "call" and "parser::Parser::peek" in e[1])
+                return ("value", Adt(OPT, 1, [UNK]) if k == 0 else Adt(OPT, 0, []))
+            if p == "proc_macro2::Punct::as_char":
+                return ("value", c)
+            if p in leaf:
+                return ("value", UNK)
+            return None
+
+        S2 = sim.Sim([mac], hooks={"call": hook2}, inline=inline, max_paths=6000, max_depth=5, max_visits=3)
+        for pth in S2.run(pid):
+            if pth.calls("proc_macro2::Punct::as_char") and pth.calls("std::string::String::push"):
+                subs.add(c)
+    return init, subs
+
+
 def run(ctx):
     db = ctx.facts(["poly"])
     lexpr = db.crate("lexpr")
@@ -48,17 +101,14 @@ def run(ctx):
     if None in (pf, pid, poc, pt):
         r.anchor_missing("lexpr_macros::parser::Parser::{parse, parse_identifier, parse_octothorpe} / parse_token")
         return
-    # initial characters: the largest group of the first char switch in `parse`
-    groups = char_switch_groups(pf)
-    if not groups:
-        r.anchor_missing("char switch in lexpr_macros Parser::parse")
+    try:
+        init, subs = macro_alphabets(mac, pf, pid)
+    except sim.Limit:
+        r.violation("lexpr_macros::parser::Parser::parse", "inexact", "path limit while evaluating the macro's parser")
         return
-    init = max((max(g.values(), key=len) for _, g, _ in groups), key=len)
-    sub_groups = char_switch_groups(pid)
-    if not sub_groups:
-        r.anchor_missing("char switch in parse_identifier")
+    if not init or not subs:
+        r.anchor_missing("punctuation accepted by lexpr_macros Parser::parse / parse_identifier (none found)")
         return
-    subs = max((max(g.values(), key=len) for _, g, _ in sub_groups), key=len)
     r.floor("initial-chars", len(init))
     r.floor("subsequent-chars", len(subs))
     # text parser: which first bytes can yield a symbol (default options; ':' with prefix keywords off)
@@ -127,7 +177,7 @@ def run(ctx):
             r.violation("lexpr_macros::parser::Parser::parse_octothorpe", "hash-ident:%s" % ident.decode(),
                         "sexp! accepts #%s, for which no text-parser meaning is recorded" % ident.decode(), poc.loc())
             continue
-        inl = lambda a, b: b.path in c08.INL or b.path == "parse::Parser::<R>::expect_ident"
+        inl = lex.helper_inline(lexpr, set(c08.INL) | {"parse::Parser::<R>::expect_ident"})
         S = sim.Sim([lexpr], hooks={"call": lex.seq_hook([0x23] + list(ident) + [0x20])}, inline=inl, max_visits=4, max_paths=4000)
         tok = lexpr.variant_names("parse::Token")
         kinds = set()
